@@ -11,8 +11,15 @@
                                        was built, so SET autocommit=1 commits the pending implicit tx)
      sql/rowexec/rel.go   buildSet (the variable is assigned while the iterator is built)
 
-   The table contents [data] and the write operations [wop] stay abstract in this file (a write either yields
-   new data or fails and leaves the data as it was: memory/table_editor.go DiscardChanges + Close). *)
+     sql/rowexec/transaction_iters.go  the implicitCommit branch of Close (DDL: commits whatever the mode and does NOT
+                                       reset ignoreAutocommit, unlike buildCommit/buildRollback)
+     sql/rowexec/transaction.go        buildCreateSavepoint / buildRollbackSavepoint / buildReleaseSavepoint over
+                                       memory/session.go CreateSavepoint... (always an error)
+     sql/analyzer/validation_rules.go  validateReadOnlyTransaction (DML rejected during analysis, DDL let through)
+
+   The table contents [data], the single-table write operations [wop] and the multi-table statements [mop] stay
+   abstract in this file (a write either yields new data or fails and leaves the data as it was:
+   memory/table_editor.go DiscardChanges + Close). *)
 From Coq Require Import List NArith Bool.
 Import ListNotations.
 
@@ -24,11 +31,23 @@ Variable apply : wop -> data -> option data.
 Definition tid := N.
 Definition sid := N.
 
+(* a statement naming several tables: a query over them, or a write to some of them computed from all of them *)
+Inductive mres :=
+| MFail                              (* fails without effect *)
+| MWrite (l : list (tid * data))     (* new contents of the written tables *)
+| MRows (d : data).                  (* a query: the rows returned *)
+
+Variable mop : Type.
+Variable mtabs : mop -> list tid.           (* the tables the statement names; every one gets its session entry *)
+Variable mwrites : mop -> bool.             (* a DML write: rejected inside a READ ONLY transaction *)
+Variable mexec : mop -> list data -> mres.  (* its effect, given the contents of [mtabs] in that order *)
+
 Record sess := mkSess {
   staged : tid -> option data;   (* Session.tables *)
   tx : bool;                     (* ctx.GetTransaction() != nil *)
   ign : bool;                    (* BaseSession.ignoreAutocommit: an explicit START TRANSACTION is open *)
-  ac : bool                      (* @@autocommit *)
+  ac : bool;                     (* @@autocommit *)
+  ro : bool                      (* Transaction.readOnly of the open transaction (START TRANSACTION READ ONLY) *)
 }.
 
 Record state := mkState {
@@ -45,9 +64,17 @@ Inductive stmt :=
 | SetAC (b : bool)               (* SET autocommit = b *)
 | Bad                            (* a statement that fails during analysis (unknown table) *)
 | WriteIC (t : tid) (w : wop)    (* a write flagged as DDL, e.g. TRUNCATE TABLE t: implicit commit when it closes *)
-| WriteAll (t : tid) (w : wop).  (* a write whose planning resolves every table of the database (unfiltered DELETE FROM t,
+| WriteAll (t : tid) (w : wop)   (* a write whose planning resolves every table of the database (unfiltered DELETE FROM t,
                                     planned as a truncate after looking for referencing foreign keys): all tables are
                                     registered in the session, then t is written *)
+| BeginRO                        (* START TRANSACTION READ ONLY *)
+| Savepoint                      (* SAVEPOINT x / ROLLBACK TO [SAVEPOINT] x / RELEASE SAVEPOINT x: the memory session
+                                    answers every one of them with an error while the iterator is built *)
+| Ddl (ts : list tid)            (* a successful DDL statement with implicit commit that names the tables ts (CREATE TABLE /
+                                    DROP TABLE of some other table: none; CREATE INDEX ON t, ALTER TABLE t: t) and leaves
+                                    their rows alone *)
+| Multi (m : mop).               (* a statement over several tables: join query, UPDATE ... JOIN, INSERT ... SELECT,
+                                    DELETE a, b FROM a JOIN b *)
 
 Inductive result :=
 | ROk
@@ -56,11 +83,11 @@ Inductive result :=
 
 Definition no_tables : tid -> option data := fun _ => None.
 
-Definition idle_sess : sess := mkSess no_tables false false true.
+Definition idle_sess : sess := mkSess no_tables false false true false.
 
 (* Engine.beginTransaction *)
 Definition begin_tx (se : sess) : sess :=
-  if tx se then se else mkSess no_tables true (ign se) (ac se).
+  if tx se then se else mkSess no_tables true (ign se) (ac se) false.   (* StartTransaction(ctx, sql.ReadWrite) *)
 
 (* Session.tableData on first touch; later touches find the entry *)
 Definition put (stg : tid -> option data) (t : tid) (x : data) : tid -> option data :=
@@ -76,6 +103,12 @@ Definition touch (d : tid -> data) (stg : tid -> option data) (t : tid) : tid ->
 Definition touch_all (d : tid -> data) (stg : tid -> option data) : tid -> option data :=
   fun t => Some (cur d stg t).
 
+Definition touch_list (d : tid -> data) (stg : tid -> option data) (ts : list tid) : tid -> option data :=
+  fold_left (fun g t => touch d g t) ts stg.
+
+Definition put_list (stg : tid -> option data) (l : list (tid * data)) : tid -> option data :=
+  fold_left (fun g p => put g (fst p) (snd p)) l stg.
+
 (* Session.CommitTransaction: every table of the session replaces the global one *)
 Definition publish (d : tid -> data) (stg : tid -> option data) : tid -> data :=
   fun t => cur d stg t.
@@ -88,57 +121,84 @@ Definition close (d : tid -> data) (se : sess) (autoc : bool) : (tid -> data) * 
   if negb (tx se) then (d, se)
   else if ign se then (d, se)
   else if negb autoc then (d, se)
-  else (publish d (staged se), mkSess (staged se) false (ign se) (ac se)).
+  else (publish d (staged se), mkSess (staged se) false (ign se) (ac se) false).
 
 (* TransactionCommittingIter.Close with implicitCommit set: commits whatever the mode; ignoreAutocommit is NOT reset *)
 Definition close_ic (d : tid -> data) (se : sess) : (tid -> data) * sess :=
   if negb (tx se) then (d, se)
-  else (publish d (staged se), mkSess (staged se) false (ign se) (ac se)).
+  else (publish d (staged se), mkSess (staged se) false (ign se) (ac se) false).
+
+(* clearAutocommitOnError: a statement that fails before its iterator exists drops an implicitly started autocommit
+   transaction and leaves everything else as it is *)
+Definition fail_sess (se : sess) : sess :=
+  if ign se then se else if ac se then mkSess (staged se) false (ign se) (ac se) false else se.
+
+Definition with_stg (se : sess) (g : tid -> option data) : sess := mkSess g (tx se) (ign se) (ac se) (ro se).
+
+(* the statement of session s (state se after beginTransaction) was rejected while it was analysed / built, after the
+   tables it names got their session entries g *)
+Definition rejected (st : state) (s : sid) (se : sess) (g : tid -> option data) : state * result :=
+  (mkState (db st) (set_sess (ss st) s (fail_sess (with_stg se g))), RErr).
+
+(* the iterator ran, leaving the session entries g, and is closed *)
+Definition closed (st : state) (s : sid) (se : sess) (g : tid -> option data) (r : result) : state * result :=
+  let c := close (db st) (with_stg se g) (ac se) in (mkState (fst c) (set_sess (ss st) s (snd c)), r).
+
+Definition closed_ic (st : state) (s : sid) (se : sess) (g : tid -> option data) (r : result) : state * result :=
+  let c := close_ic (db st) (with_stg se g) in (mkState (fst c) (set_sess (ss st) s (snd c)), r).
 
 (* one statement of session s, from Engine.QueryWithBindings to the Close of the iterator *)
 Definition step (st : state) (s : sid) (q : stmt) : state * result :=
   let se := begin_tx (ss st s) in
+  let d := db st in
+  let rejected := rejected st s se in
+  let closed := closed st s se in
+  let closed_ic := closed_ic st s se in
   match q with
-  | Bad =>
-      (* clearAutocommitOnError *)
-      let se' := if ign se then se else if ac se then mkSess (staged se) false (ign se) (ac se) else se in
-      (mkState (db st) (set_sess (ss st) s se'), RErr)
-  | Read t =>
-      let se1 := mkSess (touch (db st) (staged se) t) (tx se) (ign se) (ac se) in
-      let c := close (db st) se1 (ac se) in
-      (mkState (fst c) (set_sess (ss st) s (snd c)), RRows (cur (db st) (staged se) t))
+  | Bad | Savepoint => rejected (staged se)
+  | Read t => closed (touch d (staged se) t) (RRows (cur d (staged se) t))
   | Write t w =>
-      let stg := touch (db st) (staged se) t in
-      let a := apply w (cur (db st) (staged se) t) in
-      let stg' := match a with Some x => put stg t x | None => stg end in
-      let se1 := mkSess stg' (tx se) (ign se) (ac se) in
-      let c := close (db st) se1 (ac se) in
-      (mkState (fst c) (set_sess (ss st) s (snd c)), match a with Some _ => ROk | None => RErr end)
+      let stg := touch d (staged se) t in
+      if ro se then rejected stg else
+      match apply w (cur d (staged se) t) with
+      | Some x => closed (put stg t x) ROk
+      | None => closed stg RErr
+      end
+  | WriteAll t w =>
+      if ro se then rejected (touch d (staged se) t) else
+      let stg := touch_all d (staged se) in
+      match apply w (cur d (staged se) t) with
+      | Some x => closed (put stg t x) ROk
+      | None => closed stg RErr
+      end
+  | Multi m =>
+      let stg := touch_list d (staged se) (mtabs m) in
+      if ro se && mwrites m then rejected stg else
+      match mexec m (map (cur d (staged se)) (mtabs m)) with
+      | MFail => closed stg RErr
+      | MWrite l => closed (put_list stg l) ROk
+      | MRows x => closed stg (RRows x)
+      end
   | Begin =>
       (* commit pending work, StartTransaction, ignoreAutocommit := true; Close does nothing *)
-      let d' := publish (db st) (staged se) in
-      (mkState d' (set_sess (ss st) s (mkSess no_tables true true (ac se))), ROk)
+      (mkState (publish d (staged se)) (set_sess (ss st) s (mkSess no_tables true true (ac se) false)), ROk)
+  | BeginRO =>
+      (mkState (publish d (staged se)) (set_sess (ss st) s (mkSess no_tables true true (ac se) true)), ROk)
   | Commit =>
-      let d' := publish (db st) (staged se) in
-      (mkState d' (set_sess (ss st) s (mkSess (staged se) false false (ac se))), ROk)
+      (mkState (publish d (staged se)) (set_sess (ss st) s (mkSess (staged se) false false (ac se) false)), ROk)
   | Rollback =>
-      (mkState (db st) (set_sess (ss st) s (mkSess no_tables false false (ac se))), ROk)
+      (mkState d (set_sess (ss st) s (mkSess no_tables false false (ac se) false)), ROk)
   | SetAC b =>
-      let c := close (db st) (mkSess (staged se) (tx se) (ign se) b) b in
+      let c := close d (mkSess (staged se) (tx se) (ign se) b (ro se)) b in
       (mkState (fst c) (set_sess (ss st) s (snd c)), ROk)
   | WriteIC t w =>
-      let stg := touch (db st) (staged se) t in
-      let a := apply w (cur (db st) (staged se) t) in
-      let stg' := match a with Some x => put stg t x | None => stg end in
-      let c := close_ic (db st) (mkSess stg' (tx se) (ign se) (ac se)) in
-      (mkState (fst c) (set_sess (ss st) s (snd c)), match a with Some _ => ROk | None => RErr end)
-  | WriteAll t w =>
-      let stg := touch_all (db st) (staged se) in
-      let a := apply w (cur (db st) (staged se) t) in
-      let stg' := match a with Some x => put stg t x | None => stg end in
-      let se1 := mkSess stg' (tx se) (ign se) (ac se) in
-      let c := close (db st) se1 (ac se) in
-      (mkState (fst c) (set_sess (ss st) s (snd c)), match a with Some _ => ROk | None => RErr end)
+      (* DDL is let through by validateReadOnlyTransaction *)
+      let stg := touch d (staged se) t in
+      match apply w (cur d (staged se) t) with
+      | Some x => closed_ic (put stg t x) ROk
+      | None => closed_ic stg RErr
+      end
+  | Ddl ts => closed_ic (touch_list d (staged se) ts) ROk
   end.
 
 Fixpoint run (st : state) (h : list (sid * stmt)) : state * list result :=
@@ -158,45 +218,98 @@ Definition init (d : tid -> data) : state := mkState d (fun _ => idle_sess).
 
 (* ---- the serial reference for histories whose transactions do not overlap ---- *)
 
-Inductive rw := RRead (t : tid) | RWrite (t : tid) (w : wop).
+(* statements that may stand inside a transaction *)
+Inductive rw :=
+| RRead (t : tid) | RWrite (t : tid) (w : wop) | RWriteAll (t : tid) (w : wop) | RMulti (m : mop)
+| RBad | RSavepoint.
+
+(* statements with an implicit commit *)
+Inductive ic := IWrite (t : tid) (w : wop) | IDdl (ts : list tid).
 
 Definition stmt_of (q : rw) : stmt :=
-  match q with RRead t => Read t | RWrite t w => Write t w end.
+  match q with
+  | RRead t => Read t | RWrite t w => Write t w | RWriteAll t w => WriteAll t w | RMulti m => Multi m
+  | RBad => Bad | RSavepoint => Savepoint
+  end.
+
+Definition stmt_of_ic (i : ic) : stmt :=
+  match i with IWrite t w => WriteIC t w | IDdl ts => Ddl ts end.
+
+Inductive bkind :=
+| KBegin (r : bool)     (* START TRANSACTION [READ ONLY if r] ... COMMIT | ROLLBACK *)
+| KOff.                 (* SET autocommit = 0; ...; COMMIT | ROLLBACK; SET autocommit = 1 *)
 
 Inductive block :=
 | Auto (s : sid) (q : rw)                          (* one statement of an autocommit session *)
-| Txn (s : sid) (body : list rw) (commit : bool).  (* BEGIN; body; COMMIT or ROLLBACK *)
+| AutoIC (s : sid) (i : ic)                        (* one implicit-commit statement of an autocommit session *)
+| Txn (s : sid) (k : bkind) (body : list rw) (fin : option ic) (commit : bool).
+    (* open; body; [an implicit-commit statement as the LAST statement before the end]; COMMIT or ROLLBACK *)
+
+Definition opener (k : bkind) : stmt :=
+  match k with KBegin false => Begin | KBegin true => BeginRO | KOff => SetAC false end.
 
 Definition flatten (b : block) : list (sid * stmt) :=
   match b with
   | Auto s q => [(s, stmt_of q)]
-  | Txn s body c => (s, Begin) :: map (fun q => (s, stmt_of q)) body ++ [(s, if c then Commit else Rollback)]
+  | AutoIC s i => [(s, stmt_of_ic i)]
+  | Txn s k body fin c =>
+      (s, opener k) :: map (fun q => (s, stmt_of q)) body
+        ++ match fin with Some i => [(s, stmt_of_ic i)] | None => [] end
+        ++ (s, if c then Commit else Rollback)
+        :: match k with KOff => [(s, SetAC true)] | _ => [] end
   end.
 
 Definition upd (d : tid -> data) (t : tid) (x : data) : tid -> data :=
   fun t' => if N.eqb t' t then x else d t'.
 
-(* a statement executed directly on a database *)
-Definition apply_rw (d : tid -> data) (q : rw) : (tid -> data) * result :=
+Definition upd_list (d : tid -> data) (l : list (tid * data)) : tid -> data :=
+  fold_left (fun g p => upd g (fst p) (snd p)) l d.
+
+(* a statement executed directly on a database; [r]: inside a READ ONLY transaction *)
+Definition apply_rw (r : bool) (d : tid -> data) (q : rw) : (tid -> data) * result :=
   match q with
   | RRead t => (d, RRows (d t))
-  | RWrite t w => match apply w (d t) with Some x => (upd d t x, ROk) | None => (d, RErr) end
+  | RWrite t w | RWriteAll t w =>
+      if r then (d, RErr) else
+      match apply w (d t) with Some x => (upd d t x, ROk) | None => (d, RErr) end
+  | RMulti m =>
+      if r && mwrites m then (d, RErr) else
+      match mexec m (map d (mtabs m)) with
+      | MFail => (d, RErr)
+      | MWrite l => (upd_list d l, ROk)
+      | MRows x => (d, RRows x)
+      end
+  | RBad | RSavepoint => (d, RErr)
   end.
 
-Fixpoint apply_rws (d : tid -> data) (qs : list rw) : (tid -> data) * list result :=
+Definition apply_ic (d : tid -> data) (i : ic) : (tid -> data) * result :=
+  match i with
+  | IWrite t w => match apply w (d t) with Some x => (upd d t x, ROk) | None => (d, RErr) end
+  | IDdl _ => (d, ROk)
+  end.
+
+Fixpoint apply_rws (r : bool) (d : tid -> data) (qs : list rw) : (tid -> data) * list result :=
   match qs with
   | [] => (d, [])
-  | q :: qs' => let '(d1, r) := apply_rw d q in let '(d2, rs) := apply_rws d1 qs' in (d2, r :: rs)
+  | q :: qs' => let '(d1, x) := apply_rw r d q in let '(d2, rs) := apply_rws r d1 qs' in (d2, x :: rs)
   end.
 
+Definition is_ro (k : bkind) : bool := match k with KBegin r => r | KOff => false end.
+
 (* a committed transaction is its statements run directly on the database; a rolled back one leaves the
-   database alone (its statements still report what they would have done) *)
+   database alone (its statements still report what they would have done); an implicit-commit statement at its
+   end commits it whatever the final COMMIT / ROLLBACK says *)
 Definition apply_block (d : tid -> data) (b : block) : (tid -> data) * list result :=
   match b with
-  | Auto _ q => let '(d', r) := apply_rw d q in (d', [r])
-  | Txn _ body c =>
-      let '(d', rs) := apply_rws d body in
-      (if c then d' else d, ROk :: rs ++ [ROk])
+  | Auto _ q => let '(d', r) := apply_rw false d q in (d', [r])
+  | AutoIC _ i => let '(d', r) := apply_ic d i in (d', [r])
+  | Txn _ k body fin c =>
+      let '(d1, rs) := apply_rws (is_ro k) d body in
+      let tail := match k with KOff => [ROk; ROk] | _ => [ROk] end in
+      match fin with
+      | None => (if c then d1 else d, ROk :: rs ++ tail)
+      | Some i => let '(d2, r) := apply_ic d1 i in (d2, ROk :: rs ++ r :: tail)
+      end
   end.
 
 Fixpoint serial (d : tid -> data) (bs : list block) : (tid -> data) * list result :=
@@ -207,20 +320,30 @@ Fixpoint serial (d : tid -> data) (bs : list block) : (tid -> data) * list resul
 
 End Txn.
 
-Arguments Read {wop}. Arguments Write {wop}. Arguments Begin {wop}. Arguments Commit {wop}.
-Arguments Rollback {wop}. Arguments SetAC {wop}. Arguments Bad {wop}. Arguments WriteIC {wop}. Arguments WriteAll {wop}.
+Arguments MFail {data}. Arguments MWrite {data}. Arguments MRows {data}.
+Arguments Read {wop mop}. Arguments Write {wop mop}. Arguments Begin {wop mop}. Arguments Commit {wop mop}.
+Arguments Rollback {wop mop}. Arguments SetAC {wop mop}. Arguments Bad {wop mop}. Arguments WriteIC {wop mop}.
+Arguments WriteAll {wop mop}. Arguments BeginRO {wop mop}. Arguments Savepoint {wop mop}. Arguments Ddl {wop mop}.
+Arguments Multi {wop mop}.
 Arguments ROk {data}. Arguments RErr {data}. Arguments RRows {data}.
-Arguments RRead {wop}. Arguments RWrite {wop}.
-Arguments Auto {wop}. Arguments Txn {wop}.
+Arguments RRead {wop mop}. Arguments RWrite {wop mop}. Arguments RWriteAll {wop mop}. Arguments RMulti {wop mop}.
+Arguments RBad {wop mop}. Arguments RSavepoint {wop mop}.
+Arguments IWrite {wop}. Arguments IDdl {wop}.
+Arguments Auto {wop mop}. Arguments AutoIC {wop mop}. Arguments Txn {wop mop}.
 Arguments mkSess {data}. Arguments mkState {data}.
-Arguments staged {data}. Arguments tx {data}. Arguments ign {data}. Arguments ac {data}.
+Arguments staged {data}. Arguments tx {data}. Arguments ign {data}. Arguments ac {data}. Arguments ro {data}.
 Arguments db {data}. Arguments ss {data}.
 Arguments idle_sess {data}. Arguments no_tables {data}.
-Arguments begin_tx {data}. Arguments cur {data}. Arguments touch {data}. Arguments touch_all {data}. Arguments put {data}. Arguments publish {data}.
-Arguments set_sess {data}. Arguments close {data}. Arguments close_ic {data}. Arguments step {data wop}. Arguments run {data wop}.
-Arguments view {data}. Arguments init {data}. Arguments stmt_of {wop}. Arguments flatten {wop}.
-Arguments upd {data}. Arguments apply_rw {data wop}. Arguments apply_rws {data wop}.
-Arguments apply_block {data wop}. Arguments serial {data wop}.
+Arguments begin_tx {data}. Arguments cur {data}. Arguments touch {data}. Arguments touch_all {data}. Arguments put {data}.
+Arguments touch_list {data}. Arguments put_list {data}. Arguments publish {data}. Arguments fail_sess {data}.
+Arguments set_sess {data}. Arguments close {data}. Arguments close_ic {data}.
+Arguments with_stg {data}. Arguments rejected {data}. Arguments closed {data}. Arguments closed_ic {data}.
+Arguments step {data wop} apply {mop} mtabs mwrites mexec. Arguments run {data wop} apply {mop} mtabs mwrites mexec.
+Arguments view {data}. Arguments init {data}. Arguments stmt_of {wop mop}. Arguments stmt_of_ic {wop mop}.
+Arguments opener {wop mop}. Arguments flatten {wop mop}.
+Arguments upd {data}. Arguments upd_list {data}. Arguments apply_rw {data wop} apply {mop} mtabs mwrites mexec.
+Arguments apply_rws {data wop} apply {mop} mtabs mwrites mexec. Arguments apply_ic {data wop} apply.
+Arguments apply_block {data wop} apply {mop} mtabs mwrites mexec. Arguments serial {data wop} apply {mop} mtabs mwrites mexec.
 
 (* ---- the concrete tables used by the correspondence: (k INT PRIMARY KEY, v INT), rows kept in key order ---- *)
 From Coq Require Import ZArith.
@@ -260,3 +383,43 @@ Definition capply (w : cwop) (d : rows) : option rows :=
   | DelGe k => Some (filter (fun kv => Z.ltb (fst kv) k) d)
   | DelAll => Some []
   end.
+
+(* ---- the multi-table statements of the correspondence (a <> b) ---- *)
+Inductive cmop :=
+| MJoinRead (a b : tid)              (* SELECT x.k, x.v + y.v FROM ta x JOIN tb y ON x.k = y.k ORDER BY x.k *)
+| MUpdJoin (a b : tid) (da db : Z)   (* UPDATE ta JOIN tb ON ta.k = tb.k SET ta.v = ta.v + da, tb.v = tb.v + db *)
+| MInsSel (a b : tid) (dk : Z)       (* INSERT INTO ta SELECT k + dk, v FROM tb *)
+| MDelJoin (a b : tid) (k : Z).      (* DELETE ta, tb FROM ta JOIN tb ON ta.k = tb.k WHERE ta.k >= k *)
+
+Fixpoint lookup (k : Z) (d : rows) : option Z :=
+  match d with [] => None | (k', v) :: d' => if Z.eqb k k' then Some v else lookup k d' end.
+
+Definition cmtabs (m : cmop) : list tid :=
+  match m with MJoinRead a b | MUpdJoin a b _ _ | MInsSel a b _ | MDelJoin a b _ => [a; b] end.
+
+Definition cmwrites (m : cmop) : bool := match m with MJoinRead _ _ => false | _ => true end.
+
+Definition cmexec (m : cmop) (ds : list rows) : mres rows :=
+  match ds with
+  | [x; y] =>
+      match m with
+      | MJoinRead _ _ =>
+          MRows (flat_map (fun kv => match lookup (fst kv) y with Some v' => [(fst kv, snd kv + v')] | None => [] end) x)
+      | MUpdJoin a b da db =>
+          MWrite [(a, map (fun kv => if has_key (fst kv) y then (fst kv, snd kv + da) else kv) x);
+                  (b, map (fun kv => if has_key (fst kv) x then (fst kv, snd kv + db) else kv) y)]
+      | MInsSel a _ dk =>
+          match ins_all (map (fun kv => (fst kv + dk, snd kv)) y) x with
+          | Some x' => MWrite [(a, x')]
+          | None => MFail
+          end
+      | MDelJoin a b k =>
+          MWrite [(a, filter (fun kv => negb (Z.leb k (fst kv) && has_key (fst kv) y)) x);
+                  (b, filter (fun kv => negb (Z.leb k (fst kv) && has_key (fst kv) x)) y)]
+      end
+  | _ => MFail
+  end.
+
+(* the machine of the correspondence *)
+Definition cstep := step capply cmtabs cmwrites cmexec.
+Definition crun := run capply cmtabs cmwrites cmexec.
